@@ -34,7 +34,7 @@ SEEDS = [
 ]
 DICT = ['"i"', '"il"', '"sl"', '"sec"', '"usec"', '"msec"', '"one"', '"nd"', '"kv"', '"root"', '"include"', '"fn"', '"sub"', '"tsub"', '"icb"', '"dep"', '"drop"',
         '"="', '"+="', '"{"', '"}"', '"("', '")"', '","', '"\\""', '"\'"', '"/*"', '"*/"', '"//"', '"#"', '"${"', '"${VERIF_FUZZ_VAR}"', '":-"', '"\\\\"', '"\\\\x"', '"\\\\777"',
-        '"\\\\\\x0a"', '"true"', '"0x"', '"0b"', '"1e999"', '"99999999999999999999"', '"in.conf"', '"wrap.conf"', '"\\x00"']
+        '"\\\\\\x0a"', '"true"', '"0x"', '"0b"', '"1e999"', '"99999999999999999999"', '"in.conf"', '"wrap.conf"', '"\\x00"', '"sec=\'"', '"\\\\\'"', '"|x"', '"one|"', '"=0|"']
 
 
 def run_fuzz(bindir, tier, seed, res):
@@ -191,6 +191,12 @@ def shapes(tier):
                     ('assign-sec', 'sec = 5'), ('assign-func', 'fn = 5'), ('call-int', 'i(1)'), ('title-on-untitled', 'one t { }'), ('notitle', 'sec { }'), ('dup-brace', 'one { { } }'),
                     ('ptr-values', 'p = a\np = b\np = "c"\n'), ('kv-weird', 'kv { "" = 1 a|b = 2 x=y = 3 kv { } }\n'), ('tilde-include', 'include("~nosuchuser_verif/x")\ninclude("~/nosuch_verif")\n')]:
         S.append((name, t))
+    # item names that are paths with quoted, escaped titles (the by-path resolver copies and unescapes them)
+    dq = lambda raw: '"' + raw.replace('\\', '\\\\').replace('"', '\\"') + '"'
+    for k in list(range(0, 40)) + [62, 63, 64, 127, 128, 1000]:
+        t = 'a' * k
+        names = ["sec='%sit\\'s'|x" % t, "sec='%s\\\\'|x" % t, "sec='%s|x" % t, "sec='%s\\" % t, "sec='%s\\'|xl" % t, "sec='%s\\q'|x" % t]
+        S.append(('path-quoted-title-%d' % k, 'sec "%sit\'s" { x = 1 }\n' % t + ''.join('%s = %d\n' % (dq(n), i + 2) for i, n in enumerate(names))))
     return S
 
 
